@@ -28,19 +28,17 @@ pub struct Ctx {
     pub miri: bool,
     pub verbose_on: bool,
     seen_signatures: BTreeSet<String>,
-    current: Arc<Mutex<String>>,
-    track_current: bool,
+    current: Arc<Mutex<&'static str>>,
 }
 
 impl Ctx {
-    fn new(miri: bool, verbose_on: bool, current: Arc<Mutex<String>>) -> Self {
+    fn new(miri: bool, verbose_on: bool, current: Arc<Mutex<&'static str>>) -> Self {
         Ctx {
             sum: Summary::default(),
             miri,
             verbose_on,
             seen_signatures: BTreeSet::new(),
             current,
-            track_current: true,
         }
     }
 
@@ -66,11 +64,9 @@ impl Ctx {
         }
     }
 
-    /// what the worker is about to execute (read by the watchdog when it stalls)
-    pub fn set_current(&mut self, f: impl FnOnce() -> String) {
-        if self.track_current {
-            *self.current.lock().unwrap() = f();
-        }
+    /// input class the worker is about to execute (read by the watchdog when it stalls)
+    pub fn set_current(&mut self, class: &'static str) {
+        *self.current.lock().unwrap() = class;
     }
 }
 
@@ -127,7 +123,7 @@ fn main() {
     });
     s2n::install_panic_hook();
 
-    let current = Arc::new(Mutex::new(String::new()));
+    let current: Arc<Mutex<&'static str>> = Arc::new(Mutex::new("startup"));
 
     if let Some(path) = args.get("replay") {
         let mut ctx = Ctx::new(miri, true, current.clone());
@@ -183,7 +179,7 @@ fn main() {
                 for i in start..start + iters {
                     if let Some(st) = stall {
                         if st.at == i {
-                            ctx.set_current(|| format!("class=selftest-stall seed={seed} index={i}"));
+                            ctx.set_current("selftest-stall");
                             std::thread::sleep(Duration::from_millis(st.ms));
                         }
                     }
@@ -241,13 +237,14 @@ fn main() {
         Some(index) => {
             // Budget overrun: re-run that input alone with 100x the budget before calling it
             // a hang; the stalled worker thread is abandoned.
-            let what = current.lock().unwrap().clone();
+            let class = *current.lock().unwrap();
+            let what = format!("class={class} seed={seed} index={index}");
             eprintln!("vq-c05: input {index} ({what}) exceeded {budget:?}; re-running it alone");
             let mut sum = shared.lock().unwrap().take().unwrap_or_default();
             let done = Arc::new(Mutex::new(None::<Summary>));
             {
                 let done = done.clone();
-                let current = Arc::new(Mutex::new(String::new()));
+                let current: Arc<Mutex<&'static str>> = Arc::new(Mutex::new("rerun"));
                 std::thread::Builder::new()
                     .stack_size(16 << 20)
                     .spawn(move || {
